@@ -9,6 +9,14 @@ let () =
   let stats : (string, kstat) Hashtbl.t = Hashtbl.create 16 in
   let maxrep = 50 in
   let nrep = ref 0 in
+  (* reported lines are capped per distinct message (and DIFF separately from VIOL), so that one
+     frequent message cannot hide another kind of failure *)
+  let permsg : (string, int) Hashtbl.t = Hashtbl.create 16 in
+  let report tag msg line =
+    let k = tag ^ msg in
+    let c = (match Hashtbl.find_opt permsg k with Some c -> c | None -> 0) + 1 in
+    Hashtbl.replace permsg k c;
+    if c <= 5 && !nrep < 4 * maxrep then (incr nrep; Printf.printf "%s\t%s\t%s\n" tag msg line) in
   (try
     while true do
       let line = input_line stdin in
@@ -34,9 +42,9 @@ let () =
                  st.samples <- (if String.length line > 300 then String.sub line 0 300 ^ "..." else line) :: st.samples
              end
            | Viol msg -> st.viol <- st.viol + 1;
-             if !nrep < maxrep then (incr nrep; Printf.printf "VIOL\t%s\t%s\n" msg line)
+             report "VIOL" msg line
            | Diff msg -> st.diff <- st.diff + 1;
-             if !nrep < maxrep then (incr nrep; Printf.printf "DIFF\t%s\t%s\n" msg line))
+             report "DIFF" msg line)
       end
     done
   with End_of_file -> ());
